@@ -251,13 +251,13 @@ def run(ctx):
     rng = ctx.rng
     # ---- part 1: Canonicalize on generated lists and on permutations of them
     lists = list(canon_corpus())
-    for k in range(ctx.budget(140, 12000)):
-        n = rng.choice([0, 1, 2, 3, 4, 5, 6, 8, 11, 12, 13, 14, 20, 30, ctx.budget(16, 60)])
+    for k in range(ctx.budget(100, 12000)):
+        n = rng.choice([0, 1, 2, 3, 4, 5, 6, 8, 11, 12, 13, 14, ctx.budget(15, 20), ctx.budget(20, 30), ctx.budget(16, 60)])
         lists.append(gen_list(rng, n, small=rng.chance(2, 3), sentinel=(k % 7 == 0)))
     ins, meta = [], []
     for li, (files, diags) in enumerate(lists):
         orders = [diags]
-        if len(diags) <= 4 and li < 200:
+        if len(diags) <= ctx.budget(3, 4) and li < 200:
             orders = [list(p) for p in itertools.permutations(diags)]
         else:
             orders += [rng.shuffle(diags) for _ in range(3)]
@@ -267,7 +267,7 @@ def run(ctx):
             meta.append(li)
     ncanon = len(ins)
     cmp_ins = []
-    for _ in range(ctx.budget(300, 10000)):
+    for _ in range(ctx.budget(250, 10000)):
         files = [{"path": hx(rng.choice(PATHS))} for _ in range(2)]
         a = gen_diag(rng, 2, 1, small=rng.chance(1, 2))
         b = gen_diag(rng, 2, 2, small=rng.chance(1, 2))
